@@ -22,6 +22,10 @@ def extract(run):
 
 
 def explore(run, driver, budget):
+    from harness.props import c11
+
+    # one model object polled twice with different frames (a worker that keeps the model): the sums must be those of the second poll
+    c11.model_reuse_stage(run, {"quick": 6, "thorough": 200, "search": 30}[budget], props=(PROP,))
     K.explore(run, driver, budget, PROP, RULE)
 
 
